@@ -110,7 +110,22 @@ class C17(Check):
         total = sum(r["dt"] for r in plan["records"]) / max(1, len({r["producer"] for r in plan["records"]}) or 1)
         plan["close_at"] = rng.choice([0.0, total * 0.3, total * 0.9, total + 0.001, total + 1.0])
         plan["modes_seed"] = rng.getrandbits(30)
+        plan["burst"] = 0
+        if index % 250 == 100:
+            # a burst of many short records while the consumer gets no CPU (whatever is queued must still reach the file)
+            plan["burst"] = rng.choice([9000, 12000, 20000])
+            plan["records"] = []
+            plan["pump"] = rng.choice(["never", "lag"])
+            plan["close_at"] = 1.0
         return plan
+
+    def simplify(self, plan: dict[str, Any]) -> Any:
+        import copy
+
+        if plan.get("burst", 0) > 1:
+            p = copy.deepcopy(plan)
+            p["burst"] = plan["burst"] // 2
+            yield p
 
     def run(self, plan: dict[str, Any]) -> dict[str, Any]:
         res = new_result()
@@ -125,6 +140,8 @@ class C17(Check):
     def _run(self, plan: dict[str, Any], world: CmdWorld, res: dict[str, Any]) -> None:
         tmp = Path(world.tmp)
         world.install()
+        if plan.get("burst"):
+            plan = dict(plan, records=[{"i": i, "text": f"#{i} burst", "level": LEVELS[i % len(LEVELS)], "producer": i % 2, "dt": 0.0} for i in range(plan["burst"])])
         logpath = tmp / "log.json.zst"
         file_level = glog.Loglevel.TRACE if plan["trace_level"] else glog.Loglevel.DEBUG
         logger = glog.get_logger("gallia.simcheck.c17")
@@ -260,6 +277,9 @@ class C17(Check):
                     violation(res, "C17/read", "C17/read:len", f"{cname}: len(reader) = {ln}, {n} records were written")
             except Exception as e:  # noqa: BLE001
                 violation(res, "C17/read", f"C17/read:len:raised:{type(e).__name__}", f"{cname}: len(reader) raised {e!r}")
+            if plan.get("burst"):
+                bump(res["probes"], "burst_of_records_behind_a_stalled_consumer")
+                break  # completeness of the big file is the point here; navigation is covered by the other plans
             # priority thresholds
             for prio in glog.PenlogPriority:
                 got = read(path, "priority-filter", cname, priority=prio)
